@@ -281,12 +281,12 @@ impl<'a> Source<'a> {
 
     /// Creates a new radial gradient that is centered at the given point and has the given radius.
     pub fn new_radial_gradient(gradient: Gradient, center: Point, radius: f32, spread: Spread) -> Source<'a> {
-        // Scale gradient to desired radius
-        let scale = Transform::scale(radius, radius);
-        // Transform gradient to center of gradient
-        let translate = Transform::translation(center.x, center.y);
-        // Compute final transform
-        let transform = scale.then(&translate).inverse().unwrap();
+        // The gradient space is user space moved so that the center is at the origin and then
+        // scaled so that the radius is 1. This is the inverse of scaling by the radius and
+        // translating to the center; writing it down directly avoids inverting a matrix whose
+        // determinant (radius squared) underflows to zero for very small radii.
+        let transform = Transform::translation(-center.x, -center.y)
+            .then_scale(1. / radius, 1. / radius);
 
         Source::RadialGradient(gradient, spread, transform)
     }
